@@ -249,7 +249,10 @@ def explore(S, props, K, walkK, levels=(False, False)):
             file_slot(w, 100)
             w.stdin = 100
         args, fl = sym_args(mode, w, k, walk_dir_given=dir_given, levels=levels)
-        ctx.assume(z3.Not(z3.And(fl['inplace'], fl['check'])))   # clap: conflicts_with = "check" (checked structurally below)
+        if mode != 'walk':
+            # clap: conflicts_with = "check" (checked structurally below).  With the subcommand the conflict is not enforced when the two flags stand on
+            # different sides of it (`typstyle -i format-all --check` is accepted: --check is a global flag), so both may be set there.
+            ctx.assume(z3.Not(z3.And(fl['inplace'], fl['check'])))
         return w, m, args, fl
 
     def describe_factory(w, fl, mode, parents=None, order=None):
@@ -551,7 +554,8 @@ def replay_native(S, info):
         cmd = [cli]
         if info['inplace']:
             cmd.append('-i')
-        if info['check']:
+        check_after = info['check'] and info['inplace'] and info['mode'] == 'walk'      # accepted by clap only on different sides of the subcommand
+        if info['check'] and not check_after:
             cmd.append('--check')
         col = min(info['column'], 400)
         tab = min(info['tab_width'], 16)
@@ -594,7 +598,7 @@ def replay_native(S, info):
                     os.symlink(tgt, paths[i])
                 else:
                     os.symlink('/nonexistent-target', paths[i])
-            cmd += ['format-all', paths[0]]
+            cmd += ['format-all'] + (['--check'] if check_after else []) + [paths[0]]
         elif mode == 'list':
             ids = sorted(int(x) for x in slots if int(x) < 100)
             # file names follow the lexicographic order the model chose for the paths
@@ -742,7 +746,7 @@ def report(S, prop, found):
 
 
 ASSUMPTIONS = [
-    'clap admits every flag combination except --check with --inplace (conflicts_with found in the derive MIR of this run)',
+    'clap admits every flag combination except --check with --inplace on the same side of the subcommand (conflicts_with found in the derive MIR of this run; `-i format-all --check` is accepted and explored)',
     'formatter = uninterpreted F(content); Err iff erroneous(content); output of F is well-formed and a fixed point (C04, C03)',
     'fs::read_to_string / fs::write / walkdir / stdin / print / log behave as their contracts (walkdir contract validated natively at setup)',
     'directory listing errors (unreadable directories) are not modelled: every walk entry is Ok',
